@@ -23,6 +23,11 @@ Import ListNotations.
 (* OSError subclass raised by the repaired parent; numbering local to C17 (harness/c17.py
    maps classes by name, not through harness/excs.py) *)
 Definition ChildProcessErrorC : exn := [0; 11; 0].
+(* stands for whatever class unpickling the received message raises in the parent (TypeError from
+   an exception class whose __init__ needs two arguments, anything a __reduce__ callable raises):
+   an Exception that is neither EOFError nor OSError.  (An unpickling error that IS an OSError is
+   indistinguishable, for the protocol, from a truncated message.) *)
+Definition UnpickleErrC : exn := [0; 31].
 
 (* ---- descriptor tables ------------------------------------------------------------ *)
 Record ends := { e_rx : bool; e_tx : bool }.
